@@ -219,7 +219,8 @@ def line(dur, begin=0., end=1., finish=False):
   num_samples = int(dur + .5)
   if num_samples == 0: # Nothing to yield (and "dur" might be zero)
     return
-  m = (end - begin) / (dur - (1. if finish else 0.))
+  den = dur - (1. if finish else 0.)
+  m = (end - begin) / den if den else 0. # Zero: only "begin" (dur = finish = 1)
   for sample in xrange(num_samples):
     yield begin + sample * m
 
